@@ -35,6 +35,7 @@ pub enum SOp {
     Matches { policy: DownloadPolicy, key: Vec<u8> },
     FilterText { f: FilterKind },
     FilterParse { text: Vec<u8> },
+    HeadsEncode { heads: Vec<([u8; 32], u64)>, limit: Option<usize> },
 }
 
 #[derive(Clone, Debug, PartialEq)]
@@ -55,6 +56,8 @@ pub enum SRes {
     Bool(bool),
     Text(Vec<u8>, Option<FilterKind>),
     Filter(Option<FilterKind>),
+    HeadItems(Vec<(u64, [u8; 32])>, usize),
+    Panic,
 }
 
 pub struct Machine {
@@ -222,6 +225,19 @@ impl Machine {
                 let back: Option<FilterKind> = text.parse().ok();
                 SRes::Text(text.into_bytes(), back)
             }
+            SOp::HeadsEncode { heads, limit } => {
+                let h: AuthorHeads = heads.iter().map(|(a, t)| (AuthorId::from(a), *t)).collect();
+                let lim = *limit;
+                match std::panic::catch_unwind(std::panic::AssertUnwindSafe(|| h.encode(lim))) {
+                    Err(_) => SRes::Panic,
+                    Ok(Err(_)) => SRes::Fail,
+                    Ok(Ok(bytes)) => {
+                        // the items of the encoding, as its own decoder sees them before merging
+                        let items: Vec<(u64, AuthorId)> = postcard::from_bytes(&bytes)?;
+                        SRes::HeadItems(items.into_iter().map(|(t, a)| (t, a.to_bytes())).collect(), bytes.len())
+                    }
+                }
+            }
             SOp::FilterParse { text } => {
                 let t = String::from_utf8(text.clone()).expect("generator produces valid strings");
                 SRes::Filter(t.parse::<FilterKind>().ok())
@@ -282,6 +298,7 @@ pub fn csop(authors: &[Author], op: &SOp) -> String {
         SOp::Matches { policy, key } => format!("(SMatches {} {})", cpolicy(policy), cbytes(key)),
         SOp::FilterText { f } => format!("(SFilterText {} {})", cfilter(f), cbool(std::str::from_utf8(filter_bytes(f)).is_ok())),
         SOp::FilterParse { text } => format!("(SFilterParse {})", cbytes(text)),
+        SOp::HeadsEncode { heads, limit } => format!("(SHeadsEncode {} {})", clist(heads, |(a, t)| format!("({}, {})", n256(a), t)), coption(*limit, |l| l.to_string())),
         SOp::Import { ns, secret } => format!("(SImport {} {})", n256(ns), coption(secret.as_ref(), |s| n256(s))),
         SOp::Open { ns } => format!("(SOpen {})", n256(ns)),
         SOp::Close { ns } => format!("(SClose {})", n256(ns)),
@@ -327,6 +344,8 @@ pub fn csres(r: &SRes) -> String {
         SRes::Bool(b) => format!("(RBool {})", cbool(*b)),
         SRes::Text(t, back) => format!("(RText {} {})", cbytes(t), coption(back.as_ref(), cfilter)),
         SRes::Filter(f) => format!("(RFilter {})", coption(f.as_ref(), cfilter)),
+        SRes::HeadItems(items, len) => format!("(RHeadItems {} {})", clist(items, |(t, a)| format!("({}, {})", t, n256(a))), len),
+        SRes::Panic => "RFail".into(),
     }
 }
 
@@ -374,6 +393,7 @@ pub fn jsop(op: &SOp) -> String {
         SOp::Matches { policy, key } => format!("\"matches {} key={}\"", format!("{:?}", policy).replace('"', "'").replace('\\', "/"), hex::encode(key)),
         SOp::FilterText { f } => format!("\"filter_text {}\"", format!("{:?}", f).replace('"', "'").replace('\\', "/")),
         SOp::FilterParse { text } => format!("\"filter_parse hex:{}\"", hex::encode(text)),
+        SOp::HeadsEncode { heads, limit } => format!("\"heads_encode [{}] limit={:?}\"", heads.iter().map(|(a, t)| format!("{}@{}", h4(a), t)).collect::<Vec<_>>().join(" "), limit),
     }
 }
 pub fn jsres(r: &SRes) -> String {
